@@ -15,7 +15,7 @@
    Hypotheses: only nonneg_tb and "every oracle value ln(1/r1) is >= 0", and only where needed. *)
 From Coq Require Import List ZArith QArith Qabs Bool Arith Lia Lqa Sorted.
 From EpyV Require Import Model.Kernel Proofs.KernelBase Proofs.KernelLoops Proofs.KernelQueue
-  Proofs.KernelFire Proofs.KernelTime Proofs.KernelResults.
+  Proofs.KernelFire Proofs.KernelTime Proofs.KernelResults Proofs.KernelExample.
 Import ListNotations.
 Open Scope Q_scope.
 
@@ -156,3 +156,44 @@ Proof.
   pose proof (sync_run_ginv tb pf fuel rs ds) as G. rewrite (proj1 (sync_fields tb pf fuel rs ds)).
   split; [exact (ph_rev _ _ (g_hrec _ _ _ _ _ G))|]. intros i tt x. exact (ginv_posted_fired _ _ i tt x G).
 Qed.
+
+(* ------------------------------------------------------------------ non-vacuity *)
+(* Proofs/KernelExample.v: a table with a repeating event, a handler that posts a nested earlier
+   event, an un-post, a rejected post into the past and a per-element stochastic event.  The
+   premises hold, the run is not stuck, and the trace has 9 events under stochastic dynamics
+   (7 posted ones: 1/2, 3/2, 2, the nested 9/4, the tie 5/2 5/2, 7/2) and 5 under synchronous. *)
+Example C03_example_stoch :
+  nonneg_tb ex_tb /\ Forall (Qle 0) ex_lns /\
+  let r := stoch_run ex_tb 50 50 ex_rands ex_lns ex_draws in
+  r_stuck r = false /\ r_time r = 4 /\ r_events r = 9%nat /\
+  r_out r =
+    [OPostedRep (1 # 2); OPosted 1 2; OPosted 2 (5 # 2); OPosted 3 (7 # 4);
+     OUnpost 3 (Some (Some (7 # 4))); OQuery 3 None; OUnpost 3 (Some None); OUnpost 3 None; OValueError;
+     OHandler 0 (1 # 2) (1 # 2) (EN 0) None; OObserve (1 # 2) [2%nat]; OTap (1 # 2) 0 (NPost 0) (EN 0);
+     OHandler 2 1 1 (EN 0) (Some true); OTap 1 0 (NEv 0 0) (EN 0);
+     OHandler 0 (3 # 2) (3 # 2) (EN 0) None; OObserve (3 # 2) [1%nat]; OTap (3 # 2) 0 (NPost 0) (EN 0);
+     OHandler 1 2 2 (EN 0) None; OPosted 6 (9 # 4); OQuery 1 None; OTap 2 0 (NPost 1) (EN 0);
+     OHandler 3 (9 # 4) (9 # 4) (EN 0) None; OTap (9 # 4) 0 (NPost 3) (EN 0);
+     OHandler 3 (5 # 2) (5 # 2) (EN 0) None; OTap (5 # 2) 0 (NPost 3) (EN 0);
+     OHandler 0 (5 # 2) (5 # 2) (EN 0) None; OObserve (5 # 2) [1%nat]; OTap (5 # 2) 0 (NPost 0) (EN 0);
+     OHandler 0 (7 # 2) (7 # 2) (EN 0) None; OObserve (7 # 2) [1%nat]; OTap (7 # 2) 0 (NPost 0) (EN 0);
+     OHandler 2 4 4 (EN 1) (Some true); OTap 4 0 (NEv 0 0) (EN 1)].
+Proof.
+  split; [|split].
+  - repeat constructor. unfold Qle. cbn. lia.
+  - repeat constructor; unfold Qle; cbn; lia.
+  - cbv zeta. repeat split; vm_compute; reflexivity.
+Qed.
+
+Example C03_example_sync :
+  let r := sync_run ex_tb 50 50 ex_sync_rands ex_draws in
+  r_stuck r = false /\ r_time r = 3 /\ r_events r = 5%nat /\ r_steps r = 2%nat /\
+  r_out r =
+    [OPostedRep (1 # 2); OPosted 1 2; OPosted 2 (5 # 2); OPosted 3 (7 # 4);
+     OUnpost 3 (Some (Some (7 # 4))); OQuery 3 None; OUnpost 3 (Some None); OUnpost 3 None; OValueError;
+     OHandler 0 (1 # 2) (1 # 2) (EN 0) None; OObserve (1 # 2) [2%nat]; OTap (1 # 2) 0 (NPost 0) (EN 0);
+     OHandler 2 1 1 (EN 0) (Some true); OTap 1 0 (NEv 0 0) (EN 0);
+     OHandler 0 (3 # 2) (3 # 2) (EN 0) None; OObserve (3 # 2) [1%nat]; OTap (3 # 2) 0 (NPost 0) (EN 0);
+     OHandler 1 2 2 (EN 0) None; OPosted 6 (9 # 4); OQuery 1 None; OTap 2 0 (NPost 1) (EN 0);
+     OHandler 2 2 2 (EN 1) (Some true); OTap 2 0 (NEv 0 0) (EN 1)].
+Proof. cbv zeta. repeat split; vm_compute; reflexivity. Qed.
